@@ -15,4 +15,10 @@ META = {
         note="Trusted base is refcodec (about 400 lines written from the RFC, self-checked against fixtures from the repository's tests).",
         technique="runtime differential monitor against an independent reference codec; exhaustive sweeps of finite sub-spaces",
     ),
+    "C20": dict(
+        text="Exploration: tens of thousands of generated trees x 10 queries per run, each compared by pointer identity with a reference tree walk; sampled, not exhaustive, over trees and queries.",
+        design_ref="DESIGN.md section 4, C20",
+        note="Trusts the 10-line reference walk and the reference name resolver (refdict).",
+        technique="runtime differential monitor: search results vs reference pre-order walk (pointer identity)",
+    ),
 }
